@@ -190,6 +190,7 @@ def call_event(ctx, tid, ts, psize, timepoints, distr, meta):
         rows.append([bool(row[0] == 0.0), bool(np.max(row[1:]) == 1.0), bool(np.all(row >= 0)), mass_ok])
     ev["rows"] = rows
     meta["worst_row_error"] = worst
+    ctx.extra["worst_row_error_seen"] = max(ctx.extra.get("worst_row_error_seen", 0.0), worst)
     return ev
 
 
